@@ -222,6 +222,12 @@ VALID = [
     ("aliases of OSError in one list", dict(retry_for=[IOError, OSError, EnvironmentError], do_not_retry_for=[Base])),
     ("aliases of OSError in a set", dict(retry_for={__import__("socket").error, OSError})),
     ("duplicates in both, no overlap", dict(retry_for=(SubA, SubA), do_not_retry_for=(SubB, SubB))),
+    # two different classes that happen to have the same name (the builtin TimeoutError and multiprocessing's, an application's
+    # own ConnectionError): classes are what the filters hold, not names
+    ("same-named classes, one in each filter", dict(retry_for=[TimeoutError], do_not_retry_for=[__import__("multiprocessing").TimeoutError])),
+    ("an application's own ConnectionError next to the builtin", dict(retry_for=[type("ConnectionError", (Exception,), {})], do_not_retry_for=[ConnectionError])),
+    ("same-named classes in one filter", dict(retry_for=[type("Base", (Exception,), {}), Base], do_not_retry_for=[type("Other", (Exception,), {})])),
+    ("generic names", dict(retry_for=[type("Error", (Exception,), {})], do_not_retry_for=[type("Error", (Exception,), {})])),
 ]
 
 
